@@ -7,10 +7,12 @@ using namespace img;
 using namespace scene;
 
 enum SrcPres { SP_ARGB, SP_XRGB, SP_565, SP_SOLID, SP_1x1_ARGB, SP_1x1_XRGB, SP_XBGR, SP_N };
-enum MaskPres { MP_NONE, MP_A8, MP_XRGB, MP_SOLID, MP_1x1, MP_ARGB_CA, MP_N };
+// (the last three hold one component-alpha colour with alpha 1 -- not white --, as image, solid and 1x1 repeating image:
+// presentations of each other only, never of "no mask")
+enum MaskPres { MP_NONE, MP_A8, MP_XRGB, MP_SOLID, MP_1x1, MP_ARGB_CA, MP_N, MP_CA_BITS_C = MP_N, MP_CA_SOLID_C, MP_CA_1x1_C };
 enum DstPres { DP_ARGB, DP_XRGB, DP_XRGB_REPEAT, DP_565, DP_565_REPEAT, DP_N };
 static const char *SPN[] = {"a8r8g8b8(a=255)", "x8r8g8b8", "r5g6b5", "solid", "1x1 a8r8g8b8 repeat", "1x1 x8r8g8b8 repeat", "x8b8g8r8"};
-static const char *MPN[] = {"none", "a8=ff", "x8r8g8b8", "solid white", "1x1 a8=ff repeat", "a8r8g8b8=ffffffff CA"};
+static const char *MPN[] = {"none", "a8=ff", "x8r8g8b8", "solid white", "1x1 a8=ff repeat", "a8r8g8b8=ffffffff CA", "a8r8g8b8 colour CA", "solid colour CA", "1x1 colour CA repeat"};
 static const char *DPN[] = {"a8r8g8b8(a=255)", "x8r8g8b8", "x8r8g8b8+repeat", "r5g6b5", "r5g6b5+repeat"};
 
 struct OCase {
@@ -124,6 +126,9 @@ static OCase gen_case() {
     c.pa = SP_ARGB;  // the un-optimised reference inside each pair
     c.pb = coin(30) ? (int)(coin(50) ? SP_XRGB : SP_XBGR) : (int)R(1, SP_N - 1);
     if (coin(20)) c.pa = (int)R(0, SP_N - 1);
+  } else if (c.role == 1 && coin(25)) {
+    c.pa = MP_CA_BITS_C;
+    c.pb = coin(60) ? MP_CA_SOLID_C : MP_CA_1x1_C;
   } else if (c.role == 1) {
     c.pa = coin(60) ? MP_NONE : (int)R(0, MP_N - 1);
     c.pb = (int)R(1, MP_N - 1);
@@ -194,6 +199,7 @@ static Rendered render(const OCase &c, int sp, int mp, int dp) {
   default: bits_pres(PIXMAN_x8r8g8b8, true); break;
   }
   // mask presentation
+  uint32_t ca_colour = 0xff000000u | (uint32_t)((c.cseed * 0x9E3779B97F4A7C15ULL) >> 40);
   SImg &m = sc.mask;
   sc.has_mask = mp != MP_NONE;
   switch (mp) {
@@ -213,6 +219,23 @@ static Rendered render(const OCase &c, int sp, int mp, int dp) {
   case MP_ARGB_CA:
     m.bits.fmt = fmt_index(PIXMAN_a8r8g8b8);
     m.component_alpha = 1;
+    break;
+  case MP_CA_BITS_C:
+    m.bits.fmt = fmt_index(PIXMAN_a8r8g8b8);
+    m.component_alpha = 1;
+    break;
+  case MP_CA_SOLID_C:
+    m = SImg();
+    m.kind = 1;
+    m.color = ca_colour;
+    m.component_alpha = 1;
+    break;
+  case MP_CA_1x1_C:
+    m.bits.fmt = fmt_index(PIXMAN_a8r8g8b8);
+    m.bits.w = m.bits.h = 1;
+    m.repeat = PIXMAN_REPEAT_NORMAL;
+    m.component_alpha = 1;
+    sc.mx = sc.my = 0;
     break;
   default: break;
   }
@@ -248,7 +271,11 @@ static Rendered render(const OCase &c, int sp, int mp, int dp) {
       }
   };
   if (b.s.bits) fill(*b.s.bits, scont, sw, false);
-  if (b.m.bits) fill(*b.m.bits, scont, sw, true);
+  if (b.m.bits && mp >= MP_CA_BITS_C) {
+    for (int y = 0; y < b.m.bits->d.h; y++)
+      for (int x = 0; x < b.m.bits->d.w; x++) raw_put(b.m.bits->rowp(y), 32, x, ca_colour);
+  } else if (b.m.bits)
+    fill(*b.m.bits, scont, sw, true);
   fill(*b.d.bits, dcont, dw, false);
   if (getenv("VF_DEBUG")) fprintf(stderr, "render sp=%d mp=%d dp=%d u=%06x src.kind=%d color=%08x scene=%s\n", sp, mp, dp, u, sc.src.kind, sc.src.color, ser(sc).c_str());
   draw(sc, b);
@@ -314,8 +341,24 @@ static Verdict run_case(const OCase &c) {
   const char *rolen = c.role == 0 ? "source" : c.role == 1 ? "mask" : "destination";
   const char *na = c.role == 0 ? SPN[c.pa] : c.role == 1 ? MPN[c.pa] : DPN[c.pa], *nb = c.role == 0 ? SPN[c.pb] : c.role == 1 ? MPN[c.pb] : DPN[c.pb];
   int dw = c.sc.dst.bits.w;
+  // In the floating-point pipeline the two variants reach the same float code through different conversions (a solid's
+  // 16-bit colour / 65535 vs. an 8-bit pixel / 255, a mask of exactly 1 vs. an interpolated 0.99999994, ...): inputs that
+  // differ in the last float bit may land on either side of a truncation, so one step of the destination's depth is
+  // tolerated there.  In the 8-bit pipeline the variants must be bit-identical.
+  bool float_pipe = op_needs_division(c.sc.op);
+  int step_rb = a565 ? 9 : 1, step_g = a565 ? 5 : 1;  // (565 steps as seen after widening to 8 bits)
+  auto differs = [&](uint32_t x, uint32_t y) {
+    if (!float_pipe) return ((x ^ y) & cmpmask) != 0;
+    int tol[4] = {1, step_rb, step_g, step_rb};
+    for (int k = 0; k < 4; k++) {
+      int sh = 24 - 8 * k;
+      if (!((cmpmask >> sh) & 0xff)) continue;
+      if (std::abs((int)((x >> sh) & 0xff) - (int)((y >> sh) & 0xff)) > tol[k]) return true;
+    }
+    return false;
+  };
   for (size_t i = 0; i < A.px.size() && v.ok; i++)
-    if ((A.px[i] ^ B.px[i]) & cmpmask)
+    if (differs(A.px[i], B.px[i]))
       v.fail(fmt("%s presented as [%s] vs [%s]: destination pixel (%zu,%zu) differs: %08x vs %08x (op %d, source %s, mask %s, dest %s, filter %d repeat %d)", rolen, na, nb, i % dw, i / dw, A.px[i] & cmpmask,
                  B.px[i] & cmpmask, c.sc.op, SPN[spa], MPN[mpa], DPN[dpa], c.sc.src.filter, c.sc.src.repeat));
   // non-trivial: the pair exercises a strength reduction or a mask elision
@@ -323,7 +366,7 @@ static Verdict run_case(const OCase &c) {
   bool reducible = c.sc.op <= PIXMAN_OP_SATURATE && row_differs[c.sc.op];
   bool nt = false;
   if (c.role == 0) nt = reducible && c.pa == SP_ARGB && c.pb != SP_ARGB && c.pb != SP_1x1_ARGB;
-  else if (c.role == 1) nt = (c.pa == MP_NONE) != (c.pb == MP_NONE);
+  else if (c.role == 1) nt = (c.pa == MP_NONE) != (c.pb == MP_NONE) || c.pa >= MP_CA_BITS_C;
   else nt = reducible && (c.pb == DP_XRGB_REPEAT || c.pb == DP_565_REPEAT || c.pa != c.pb);
   v.nontrivial = nt;
   v.label(std::string("role_") + rolen);
